@@ -120,6 +120,16 @@ def run(ctx):
         variant = meta[-1][1].get("_variant", 0) if meta[-1][0] == "surface" else 0
         terms.append("check_surface_case %s %s %s %s" % (coq_calls(calls, oracles, variant), cqN(wiring.NPROBE), cqvec(probes[r["p"]]), coq_res(r)))
     outs = coq_eval(ctx, IMPORTS, terms)
+    # a macro form evaluates each argument expression it is given exactly once (a method call does)
+    stats["macro_argument_evaluations_checked"] = 0
+    for kind, e, calls, r in meta:
+        if kind == "surface" and e["surface"] == "macro" and "evals" in r:
+            vals = [wiring.role_value(role, e["family"], e.get("_variant", 0)) for _, role, _ in e["roles"]]
+            written = sum(len(v) if k == "ql" else 1 for v, (_, k) in zip(vals, e["params"]))
+            stats["macro_argument_evaluations_checked"] += 1
+            if r["evals"] != written and r["p"] == 0:
+                ctx.violations.append(("%s evaluates its %d argument expressions %d times in all (a method call evaluates each once): with an expression that has an effect or draws a value the macro form differs from the method" % (
+                    label(e), written, r["evals"]), {"surface": label(e), "arguments_written": written, "evaluations": r["evals"]}))
     known = {k["class"]: k for k in load_known() if k["property"] == "C07"}
     seen_known = 0
     for (kind, e, calls, r), o in zip(meta, outs):
